@@ -213,10 +213,12 @@ class ResLoop(LoopSpec):
 
 
 class FindResistance(Contract):
-    """the antibiotic of the first feature labelled with exactly one known resistance cassette; RuntimeError when a
-    feature names several, or none does.  The value is always one of the table's antibiotics."""
+    """the antibiotic of a feature labelled with exactly one known resistance cassette; RuntimeError only for a record
+    that is not unambiguous (no feature names a cassette, several do, or one names several).  The value is always one of the
+    table's antibiotics."""
     file, qual = UTL, "find_resistance"
     props = ("C20",)
+    exact_raises = False
 
     def setup(self, ex, st, variant):
         ex.models.elem_kind = "FeatureAbs"
@@ -243,9 +245,12 @@ class FindResistance(Contract):
             return [("RuntimeError", None, None)]
         j, i = tm.V("j", INT), tm.V("i", INT)
         nc = lambda x: tm.app("ncass", INT, tm.seqnth(F, x))
-        none = tm.forall_range(j, 0, tm.seqlen(F), tm.eq(nc(j), 0))
-        several_first = tm.exists_range(i, 0, tm.seqlen(F), tm.and_(tm.lt(1, nc(i)), tm.forall_range(j, 0, i, tm.eq(nc(j), 0))))
-        return [("RuntimeError", tm.or_(none, several_first), None)]
+        # C20 asks that an item holds a known resistance; it does not say which feature decides when several name a cassette,
+        # nor that such a record must be refused.  What it does need: a record that is *unambiguous* -- exactly one feature names
+        # a cassette, and names exactly one -- is not refused.  (One direction only: exact_raises is off.)
+        unambiguous = tm.exists_range(i, 0, tm.seqlen(F), tm.and_(tm.eq(nc(i), 1), tm.forall_range(
+            j, 0, tm.seqlen(F), tm.or_(tm.eq(j, i), tm.eq(nc(j), 0)))))
+        return [("RuntimeError", tm.not_(unambiguous), None)]
 
     def ensures(self, ex, pre, st, a, result):
         F = self._F(pre, a)
@@ -257,11 +262,11 @@ class FindResistance(Contract):
             return [("returns-a-known-antibiotic", known)]
         i, j = tm.V("i", INT), tm.V("j", INT)
         nc = lambda x: tm.app("ncass", INT, tm.seqnth(F, x))
-        first = tm.exists_range(i, 0, tm.seqlen(F), tm.and_(
-            tm.eq(nc(i), 1), tm.forall_range(j, 0, i, tm.eq(nc(j), 0)),
+        some = tm.exists_range(i, 0, tm.seqlen(F), tm.and_(
+            tm.eq(nc(i), 1),
             tm.or_(*[tm.and_(tm.eq(tm.app("cass", STR, tm.seqnth(F, i)), tm.S(k)), tm.eq(result.t, tm.S(v)))
                      for k, v in sorted(table.items())])))
-        return [("returns-a-known-antibiotic", known), ("of-the-first-feature-naming-exactly-one-cassette", first)]
+        return [("returns-a-known-antibiotic", known), ("of-a-feature-naming-exactly-one-cassette", some)]
 
     def table(self, ex):
         import ast
